@@ -81,18 +81,18 @@ type jScenario struct {
 	ValidTTL   int64   `json:"valid_ttl,omitempty"`
 	// PutLatency / ReplayLatency: virtual ns spent inside every Put / Replay call
 	// ErrKind: flavour of every injected error of this scenario (mon.ErrKinds)
-	ErrKind string `json:"err_kind,omitempty"`
-	PutLatency    int64 `json:"put_latency,omitempty"`
-	ReplayLatency int64 `json:"replay_latency,omitempty"`
-	Subs        []jSub         `json:"subs"`
-	Pubs        []jPub         `json:"pubs"`
-	Shutdowns   []jShutdown    `json:"shutdowns,omitempty"`
-	Hook        jHook          `json:"hook"`
-	Probe       bool           `json:"probe"`
-	ZeroJoeShutdownFirst bool  `json:"shutdown_first,omitempty"`
+	ErrKind              string      `json:"err_kind,omitempty"`
+	PutLatency           int64       `json:"put_latency,omitempty"`
+	ReplayLatency        int64       `json:"replay_latency,omitempty"`
+	Subs                 []jSub      `json:"subs"`
+	Pubs                 []jPub      `json:"pubs"`
+	Shutdowns            []jShutdown `json:"shutdowns,omitempty"`
+	Hook                 jHook       `json:"hook"`
+	Probe                bool        `json:"probe"`
+	ZeroJoeShutdownFirst bool        `json:"shutdown_first,omitempty"`
 	// ValRep: the Replayer field holds a struct value (a thin decorator), not a pointer
 	ValRep bool `json:"replayer_by_value,omitempty"`
-	Procs       int            `json:"gomaxprocs,omitempty"`
+	Procs  int  `json:"gomaxprocs,omitempty"`
 }
 
 func (sc *jScenario) autoIDs() bool   { return strings.HasSuffix(sc.Replayer, ":auto") }
@@ -232,7 +232,7 @@ func buildReplayer(kind string, validTTL int64) (sse.Replayer, error) {
 
 func (sc *jScenario) newMessage(m jMsg) *sse.Message {
 	msg := &sse.Message{}
-	msg.AppendData(m.Token)
+	mon.ShapeMsg(msg, m.Token)
 	if sc.manualIDs() != m.BadID {
 		msg.ID = sse.ID("id-" + m.Token)
 		if m.EmptyID {
